@@ -52,7 +52,7 @@ def _word(rng, k):
     return rng.choice(SPECIAL)
 
 
-def balanced(rng, k, depth=0, in_quotes=False, maxwords=6):
+def balanced(rng, k, depth=0, in_quotes=False, maxwords=6, bare_quote=False):
     """Text with balanced unescaped braces (splitter convention) that does not
     end in a backslash and contains no '@word{' and (in quotes) no bare '"'."""
     parts = []
@@ -60,7 +60,7 @@ def balanced(rng, k, depth=0, in_quotes=False, maxwords=6):
     for _ in range(n):
         r = rng.random()
         if r < 0.15 and depth < k["nest"]:
-            parts.append("{" + balanced(rng, k, depth + 1, in_quotes, 3) + "}")
+            parts.append("{" + balanced(rng, k, depth + 1, in_quotes, 3, bare_quote) + "}")
         elif r < 0.15 + k["multiline"] * 0.5:
             if rng.random() < 0.15:
                 parts.append("\\\\\n" + _word(rng, k))   # LaTeX line break at the end of a line: backslash-newline
@@ -70,6 +70,8 @@ def balanced(rng, k, depth=0, in_quotes=False, maxwords=6):
             w = _word(rng, k)
             if in_quotes and w == '\\"':
                 w = "q"
+            if bare_quote and w in ("A", "x1"):
+                w = rng.choice(['3.5"', '"'])      # a bare double quote is ordinary text inside a brace-enclosed value
             parts.append(w)
     s = rng.choice([" ", " ", "  "]).join(parts) if parts else ""
     s = desplice(s)
@@ -116,7 +118,7 @@ def piece(rng, k, strkeys):
         return rng.choice(["", "{}", '""', "{ }", "{{}}"])     # empty values are legal for the splitter
     pad = rng.choice(["", "", "", " ", "  ", "\n "]) if r > 0.5 else ""
     if r < 0.55:
-        return "{" + pad + balanced(rng, k) + rng.choice(["", pad]) + "}"
+        return "{" + pad + balanced(rng, k, bare_quote=True) + rng.choice(["", pad]) + "}"
     if r < 0.8:
         return '"' + pad + balanced(rng, k, in_quotes=True) + rng.choice(["", pad]) + '"'
     if r < 0.9:
